@@ -886,6 +886,11 @@ func (c *Compactor) WriteSnapshot(cache *Cache) ([]string, error) {
 	c.mu.Unlock()
 
 	if !enabled {
+		// Disabled while the snapshot was being written: do not leave the
+		// finished temporary files behind.
+		if err := c.removeTmpFiles(files); err != nil {
+			return nil, err
+		}
 		return nil, errSnapshotsDisabled
 	}
 
